@@ -47,6 +47,18 @@ func isStringy(t *tctx, e ast.Expr) bool {
 	return false
 }
 
+// leanName: a Go local as a Lean identifier (Lean keywords are quoted).
+func leanName(n string) string {
+	switch n {
+	case "prefix", "infix", "infixl", "infixr", "postfix", "notation", "from", "at", "then", "end", "fun", "match", "with", "do", "in", "let", "have", "show", "by",
+		"where", "open", "namespace", "section", "universe", "variable", "theorem", "def", "example", "instance", "structure", "class", "inductive", "deriving",
+		"macro", "syntax", "import", "export", "private", "protected", "mutual", "termination_by", "decreasing_by", "set_option", "attribute", "local", "scoped",
+		"if", "else", "for", "return", "break", "continue", "unless", "try", "catch", "finally", "mut", "Type", "Prop", "Sort", "forall", "exists", "calc", "using", "suffices", "obtain", "nomatch", "nofun":
+		return "«" + n + "»"
+	}
+	return n
+}
+
 func (t *tctx) num(v int64) string {
 	if t.bv {
 		return fmt.Sprintf("(%d#64)", v)
@@ -96,7 +108,7 @@ func (t *tctx) expr(e ast.Expr) string {
 				return t.pkg + "_" + x.Name
 			}
 		}
-		return x.Name
+		return leanName(x.Name)
 	case *ast.StarExpr:
 		return t.expr(x.X)
 	case *ast.SelectorExpr:
@@ -324,7 +336,7 @@ func (t *tctx) stmt(s ast.Stmt, ind string) []string {
 				t.bad(s, "declared type")
 			}
 			for _, n := range vs.Names {
-				out = append(out, fmt.Sprintf("%slet mut %s : %s := %s", ind, n.Name, lt, z))
+				out = append(out, fmt.Sprintf("%slet mut %s : %s := %s", ind, leanName(n.Name), lt, z))
 			}
 		}
 		return out
@@ -382,6 +394,12 @@ func (t *tctx) stmt(s ast.Stmt, ind string) []string {
 		}
 		if x.Value != nil {
 			v = src(x.Value)
+		}
+		if k != "_" {
+			k = leanName(k)
+		}
+		if v != "_" {
+			v = leanName(v)
 		}
 		_, isHdr := t.hdrVars[src(x.X)]
 		lx := strings.ToLower(src(x.X))
@@ -773,10 +791,10 @@ func genFuncs() string {
 		{
 			named, put, jumps, condPut := 0, 0, 0, false
 			for _, s := range fl.Body.List {
-				if src(s) == "partNames = append(partNames, ID)" {
+				if a, ok := s.(*ast.AssignStmt); ok && len(a.Lhs) == 1 && len(a.Rhs) == 1 && src(a.Lhs[0]) == "partNames" && strings.HasPrefix(src(a.Rhs[0]), "append(partNames, ") {
 					named++
 				}
-				if g, ok := s.(*ast.GoStmt); ok && strings.Contains(src(g), "datastore.Put(ctx, k, p)") {
+				if g, ok := s.(*ast.GoStmt); ok && strings.Contains(src(g), "datastore.Put(ctx, ") {
 					put++
 				}
 			}
@@ -835,7 +853,29 @@ func genFuncs() string {
 			subst: map[string]string{"uint(maxRetryCount)": "(BitVec.ofNat 64 utils_maxRetryCountU)"}}
 		var pre []ast.Stmt
 		sawJitter := false
-		for _, s := range fd.Body.List {
+		bodyList := fd.Body.List
+		helperForm := false
+		if len(bodyList) == 1 {
+			// `return addJitter(helper(retryCount), JitterPercent)` with the un-jittered target computed by a helper
+			if r, ok := bodyList[0].(*ast.ReturnStmt); ok && len(r.Results) == 1 {
+				if c, ok := r.Results[0].(*ast.CallExpr); ok && src(c.Fun) == "addJitter" && len(c.Args) == 2 && src(c.Args[1]) == "JitterPercent" {
+					if hc, ok := c.Args[0].(*ast.CallExpr); ok && len(hc.Args) == 1 && src(hc.Args[0]) == "retryCount" {
+						if id, ok := hc.Fun.(*ast.Ident); ok {
+							if h := findFunc(f, "", id.Name); h != nil && len(h.Type.Params.List) == 1 && len(h.Type.Params.List[0].Names) == 1 &&
+								h.Type.Params.List[0].Names[0].Name == "retryCount" && src(h.Type.Params.List[0].Type) == "uint" {
+								bodyList = h.Body.List
+								helperForm = true
+							}
+						}
+					}
+				}
+			}
+		}
+		if helperForm {
+			emitDef(&sb, "utils_backoffTarget (retryCount : BitVec 64) : BitVec 64", t.stmts(bodyList, "  "), rel+" ExponentialBackoffDuration before addJitter (uint/int64 semantics; target computed by a helper)")
+			bodyList = nil
+		}
+		for _, s := range bodyList {
 			if a, ok := s.(*ast.AssignStmt); ok && strings.HasPrefix(src(a.Rhs[0]), "addJitter(") {
 				if src(a.Rhs[0]) != "addJitter(targetDuration, JitterPercent)" || src(a.Lhs[0]) != "targetDuration" {
 					fail("%s: jitter call changed: %s", rel, src(s))
@@ -851,9 +891,12 @@ func genFuncs() string {
 			}
 			pre = append(pre, s)
 		}
-		body := t.stmts(pre, "  ")
-		body = append(body, "  return targetDuration")
-		emitDef(&sb, "utils_backoffTarget (retryCount : BitVec 64) : BitVec 64", body, rel+" ExponentialBackoffDuration before addJitter (uint/int64 semantics)")
+		var body []string
+		if !helperForm {
+			body = t.stmts(pre, "  ")
+			body = append(body, "  return targetDuration")
+			emitDef(&sb, "utils_backoffTarget (retryCount : BitVec 64) : BitVec 64", body, rel+" ExponentialBackoffDuration before addJitter (uint/int64 semantics)")
+		}
 		aj := mustFunc(f, rel, "", "addJitter")
 		want := "{\n\tjitter := 1 - jitterPercent + rand.Float64()*(jitterPercent*2)\n\treturn time.Duration(float64(duration.Nanoseconds())*jitter) * time.Nanosecond\n}"
 		if src(aj.Body) != want {
@@ -1000,19 +1043,52 @@ func genFuncs() string {
 			i, ok := s.(*ast.IfStmt)
 			return ok && i.Init != nil && strings.Contains(src(i.Init), "utils.ListPendingRequests(")
 		})
-		if is == nil {
-			fail("%s: list call not found in pollForNewRequests", rel)
-		}
-		ifs := is.(*ast.IfStmt)
-		if src(ifs.Cond) != "err != nil" {
-			fail("%s: list-call failure test changed: %s", rel, src(ifs.Cond))
-		}
-		eb, ok := ifs.Else.(*ast.BlockStmt)
-		if !ok {
-			fail("%s: list-call success branch missing", rel)
+		var failBody, succAll []ast.Stmt
+		if is != nil {
+			ifs := is.(*ast.IfStmt)
+			if src(ifs.Cond) != "err != nil" {
+				fail("%s: list-call failure test changed: %s", rel, src(ifs.Cond))
+			}
+			eb, ok := ifs.Else.(*ast.BlockStmt)
+			if !ok {
+				fail("%s: list-call success branch missing", rel)
+			}
+			failBody, succAll = ifs.Body.List, eb.List
+		} else {
+			// the same loop written with an early `continue`:  x, err := List(…); if err != nil { …; continue }; …
+			ast.Inspect(fd.Body, func(n ast.Node) bool {
+				var list []ast.Stmt
+				switch x := n.(type) {
+				case *ast.BlockStmt:
+					list = x.List
+				case *ast.CaseClause:
+					list = x.Body
+				case *ast.CommClause:
+					list = x.Body
+				}
+				for i := 0; i+1 < len(list) && failBody == nil; i++ {
+					a, ok := list[i].(*ast.AssignStmt)
+					if !ok || !strings.Contains(src(a), "utils.ListPendingRequests(") {
+						continue
+					}
+					ifs, ok := list[i+1].(*ast.IfStmt)
+					if !ok || ifs.Init != nil || ifs.Else != nil || src(ifs.Cond) != "err != nil" || len(ifs.Body.List) == 0 {
+						continue
+					}
+					if br, ok := ifs.Body.List[len(ifs.Body.List)-1].(*ast.BranchStmt); !ok || br.Tok != token.CONTINUE || br.Label != nil {
+						continue
+					}
+					failBody = ifs.Body.List[:len(ifs.Body.List)-1]
+					succAll = list[i+2:]
+				}
+				return failBody == nil
+			})
+			if failBody == nil {
+				fail("%s: list call not found in pollForNewRequests", rel)
+			}
 		}
 		var succ []ast.Stmt
-		for _, s := range eb.List {
+		for _, s := range succAll {
 			if _, ok := s.(*ast.RangeStmt); ok {
 				continue // the dedup loop is modelled in Model/Dedup
 			}
@@ -1021,7 +1097,7 @@ func genFuncs() string {
 		t := &tctx{pkg: "agent", env: collectConsts(f), bv: true, where: rel + ":pollForNewRequests",
 			stmtSub: map[string]string{"time.Sleep(utils.ExponentialBackoffDuration(retryCount))": "slept := some retryCount"}}
 		body := []string{"  let mut retryCount := retryCount0", "  let mut slept : Option (BitVec 64) := none", "  if failed then"}
-		body = append(body, t.stmts(ifs.Body.List, "    ")...)
+		body = append(body, t.stmts(failBody, "    ")...)
 		body = append(body, "  else")
 		sb2 := t.stmts(succ, "    ")
 		if len(sb2) == 0 {
@@ -1059,7 +1135,7 @@ func genFuncs() string {
 		rel := "agent/websockets/shim.go"
 		f := parseFile(rel)
 		fd := mustFunc(f, rel, "", "createShimChannel")
-		if !strings.Contains(src(fd), "targetURL := *(r.URL)") {
+		if !strings.Contains(src(fd), "targetURL := *(r.URL)") && !strings.Contains(src(fd), "targetURL := *r.URL") {
 			fail("%s: the open handler no longer starts from a copy of r.URL", rel)
 		}
 		if !strings.Contains(src(fd), "NewConnection(ctx, targetURL.String(), r.Header") {
@@ -1154,11 +1230,24 @@ func genFuncs() string {
 		}
 		fmt.Fprintf(&sb, "/-- %s sessionResponseWriter.WriteHeader: (Path, Secure, HttpOnly) of the session cookie; Name = configured name, Value = session ID, Expires = now + configured lifetime (checked syntactically by goextract) -/\ndef sessions_cookieAttrs (disableSSLForTest : Bool) : Bytes × Bool × Bool := (%s, %s, %s)\n\n", rel, t.expr(pathE), t.expr(secE), t.expr(httpE))
 		// the header edits of WriteHeader as a function (slice: header operations and the ifs guarding them)
+		// the cookie may be built in place (or by a helper that the inliner has expanded): `(&http.Cookie{…}).String()` is the session cookie too
+		cookieExprs := map[string]string{}
+		ast.Inspect(fd, func(n ast.Node) bool {
+			if c, ok := n.(*ast.CallExpr); ok {
+				if se, ok := c.Fun.(*ast.SelectorExpr); ok && se.Sel.Name == "String" && len(c.Args) == 0 && strings.Contains(src(se.X), "&http.Cookie{") && strings.Count(src(se.X), "http.Cookie{") == 1 {
+					cookieExprs[src(c)] = "sessionCookie"
+				}
+			}
+			return true
+		})
 		ts := &tctx{pkg: "sessions", env: collectConsts(f), where: rel + ":sessionResponseWriter.WriteHeader (header slice)", ret: "var:header",
 			sliceAllow: []string{"header := w.Header()", "cookiesToAdd := (&http.Response{Header: header}).Cookies()"},
 			hdrVars:    map[string]string{"header": "header"},
 			subst:      map[string]string{"w.sessionID == \"\"": "noSession", "sessionCookie.String()": "sessionCookie", "len(cookiesToAdd)": "parsedCookies", "w.wroteHeader": "wroteHeader"}}
 		knownInts["http.StatusSwitchingProtocols"] = 101
+		for k, v := range cookieExprs {
+			ts.subst[k] = v
+		}
 		sl := ts.slice(fd.Body.List)
 		if len(sl) > 0 {
 			if _, ok := sl[len(sl)-1].(*ast.ReturnStmt); ok {
@@ -1183,7 +1272,19 @@ func genFuncs() string {
 		}
 		// the writer deletes every Set-Cookie and adds only the session cookie
 		body := src(fd.Body)
-		for _, need := range []string{"header.Del(\"Set-Cookie\")", "header.Add(\"Set-Cookie\", sessionCookie.String())", "if w.sessionID == \"\" {"} {
+		addOK := false
+		ast.Inspect(fd, func(n ast.Node) bool {
+			if c, ok := n.(*ast.CallExpr); ok && src(c.Fun) == "header.Add" && len(c.Args) == 2 && src(c.Args[0]) == "\"Set-Cookie\"" {
+				if _, isCookie := cookieExprs[src(c.Args[1])]; isCookie || src(c.Args[1]) == "sessionCookie.String()" {
+					addOK = true
+				}
+			}
+			return true
+		})
+		if !addOK {
+			fail("%s: sessionResponseWriter.WriteHeader no longer adds the session cookie with header.Add(\"Set-Cookie\", <cookie>.String())", rel)
+		}
+		for _, need := range []string{"header.Del(\"Set-Cookie\")", "if w.sessionID == \"\" {"} {
 			if !strings.Contains(body, need) {
 				fail("%s: sessionResponseWriter.WriteHeader no longer contains %s", rel, need)
 			}
